@@ -202,7 +202,7 @@ def to_blackbird(prog: Program, version: str = "1.0") -> blackbird.BlackbirdProg
 
             if cmd.op.p:
                 # argument is quadrature phase
-                op["args"] = cmd.op.p
+                op["args"] = list(cmd.op.p)
 
             if op["op"] == "MeasureFock":
                 # special case to take into account 'dark_counts' keyword argument
